@@ -289,6 +289,13 @@ def main(tier="quick"):
                 seen.add(q)
                 cases.append(Case(pid, backend, q, md, {"source": "seqparam"}))
                 pid += 1
+        # explicit aggregates whose seed is computed, negative or compound (an extra block is opened for them), bare and consumed
+        from mc.lang import aggfam
+        for ctx, q in aggfam.queries(backend):
+            if ctx.split(":")[0] in ("ev-seed", "obj-seed", "ev-seed-use") and q not in seen:
+                seen.add(q)
+                cases.append(Case(pid, backend, q, md, {"source": "aggregate-seed"}))
+                pid += 1
         # enum values in namespaces one to four levels deep (model classes generated per program, as in C10): every qualified
         # name the translator writes must be one the data model declares
         from mc.checks import c10
